@@ -343,8 +343,17 @@ pub trait Language: Debug + Clone + Hash + Eq + Ord {
         }
 
         let mut c = self.clone();
+        // every occurrence of one missing slot has to get the same fresh slot.
+        let mut m = m.clone();
         for x in c.public_slot_occurrences_mut() {
-            let y = m.get(*x).unwrap_or_else(Slot::fresh);
+            let y = match m.get(*x) {
+                Some(y) => y,
+                None => {
+                    let y = Slot::fresh();
+                    m.insert(*x, y);
+                    y
+                }
+            };
 
             // If y collides with a private slot, we have a problem.
             if CHECKS {
